@@ -31,6 +31,8 @@ CHECKS = {
     "C18": ("F", "§5 C18", "counters vs ledger at every instant end; independent occupancy integral vs reported time average; cycle-time sum; timestamps"),
     "C19": ("F", "§5 C19", "differential oracle: every enumerated run twice in-process and in 3 fresh interpreters (PYTHONHASHSEED 0/1/4242); monotone clock in every run"),
     "C20": ("F", "§5 C20", "every run of the full grammar incl. conveyors must finish without exception or zero-time livelock; every invalid configuration must raise"),
+    "C12": ("S", "§5 C12", "conveyor edges: capacity, entry order, entry spacing vs kinematic reference, minimum and exact travel time"),
+    "C13": ("S", "§5 C13", "kinematic reference (stop / close-up) vs published availability at every instant end; no admission during a non-accumulating stall"),
     "C14": ("S", "§5 C14", "fleet batch / round-trip clauses from load times and observed availability times"),
 }
 NA_REASON = "check not built yet in this session (planned: see DESIGN.md §5); not claimed until it runs silent on the unchanged tree"
